@@ -43,6 +43,10 @@ def rules(ck, P):
         return
     impl = ops[0]
     adt = impl["self_adt"]
+    # the stream files every blob of a 32x32 sub-box under get_tile_index3(coord) and turns the slot back into a coordinate with
+    # get_coord3_by_index: both are part of the box algebra decided by R-BOX (shared with C02 / C03 / C09)
+    from . import boxalg as _boxalg
+    _boxalg.box_core_rules(ck, P)
     gtd = P.impl_method(impl, "get_tile_data")
     gts = P.impl_method(impl, "get_tile_stream")
     mt = [b for b in P.bodies if b["q"].endswith("from_vectortiles_merged::merge_tiles")]
